@@ -1081,6 +1081,37 @@ func probeFindLive(res *vh.Result) {
 	}
 }
 
+// probeFindSplitKey is the minimal form of a defect found by the thorough tier's deep histories and repaired (0125c83): the
+// start path Find / Seek get for a start node under an extension IS that node's key, and the traversal appended to it; when
+// the key's array still had room shared with the key of a neighbour (both cut from one key when the extension was split)
+// the appended nibbles overwrote the neighbour: Find returned a key that is not in the trie. Kept as a regression.
+func probeFindSplitKey(res *vh.Result) {
+	defer func() { _ = recover() }()
+	k1, _ := hex.DecodeString("0f00f011ff10100f1100ff01f00ff000010010f0ff111012ffff")
+	k2, _ := hex.DecodeString("0f00f011ff10100f1100ff01f00ff000010010f0ff111012ff000012")
+	for _, mode := range []mpt.TrieMode{mpt.ModeAll, mpt.ModeGC} {
+		tr := mpt.NewTrie(nil, mode, storage.NewMemCachedStore(storage.NewMemoryStore()))
+		k3 := k1[:len(k1)-1]
+		for _, b := range []map[string][]byte{{"p" + string(k1): {0x61}}, {"p" + string(k2): {0x61}}, {"p" + string(k3): nil, "p" + string(k2): nil}, {"p" + string(k2): {}}} {
+			_, _ = tr.PutBatch(mpt.MapToMPTBatch(b)) // (the first byte of a map key is the storage prefix, not part of the trie key)
+		}
+		r, err := tr.Find(nil, nil, 10)
+		ok := err == nil && len(r) == 2 && bytes.Equal(r[0].Key, k2) && bytes.Equal(r[1].Key, k1)
+		v, gerr := tr.Get(k1)
+		if !ok || gerr != nil || !bytes.Equal(v, []byte{0x61}) {
+			got := []string{}
+			for _, e := range r {
+				got = append(got, hex.EncodeToString(e.Key))
+			}
+			res.Violate(map[string]any{"kind": "FindAgrees", "op": "find", "hasfrom": false, "class": "split-extension-key-array"},
+				fmt.Sprintf("Find(nil, nil) on a trie holding %x and %x returned %v (err %v); Get of the first afterwards: %x %v", k1, k2, got, err, v, gerr),
+				map[string]any{"mode": modeName(mode), "repro": "PutBatch{k1} PutBatch{k2} PutBatch{del k1[:25], del k2} PutBatch{k2: empty} Find(nil, nil, 10)"})
+			return
+		}
+	}
+	res.Inc("probe_find_split_key", 1)
+}
+
 // ---------------------------------------------------------------- entry point
 
 var modes = []mpt.TrieMode{mpt.ModeAll, mpt.ModeLatest, mpt.ModeGC}
@@ -1127,6 +1158,7 @@ func TestDriver(t *testing.T) {
 	}
 	res.Inc("deep_histories", nd)
 	probeFindLive(res)
+	probeFindSplitKey(res)
 	tr.Close()
 	res.Inc("trace_events", tr.N)
 	sort.Strings(res.Distinct)
